@@ -4,4 +4,8 @@ TABLE = {
   text="Every schedule list of the bounded language (26-item alphabet incl. malformed items, length <= 3 on 24 object-list configurations and length 4 on two; thorough one longer) is constructed on the real Experiment and compared with an independent predicate; setter histories are explored by BFS over the real setters; the four tomography classes are enumerated against their shape predicate; accepted POVM-terminated schedules are executed against the reference Born rule. Exhaustive within the stated bounds, which is the right level for a decision procedure over a combinatorial language.",
   ref="DESIGN.md section 4 C20", note="items outside the alphabet, object lists longer than 2, schedules longer than the bound are not explored; the reference predicate is my reading of the property sentence",
   technique="bounded-exhaustive enumeration of the schedule language + explicit-state BFS over setter histories on the real code, against a reference predicate"),
+ "C04": dict(
+  text="For every type, outcome count 2..5, system (1 qubit, qutrit, 2 qubits, qubit x qutrit) the object-level, variable-level (both parametrisations) and closure forms of both projections are run on every tuple of Hermitian blocks of a structured alphabet (spectrum patterns x eigenbases incl. genuinely complex, scales 1e-3..1e3 and mixed) and compared with reference projections in an isometric frame; nearest-point-ness over ALL feasible competitors is decided by the Moreau certificate / pseudo-inverse identity; idempotence, fixed points and byte snapshots of arguments are checked on every case.",
+  ref="DESIGN.md sections 3 and 4 C04", note="inputs outside the block alphabet are not covered (projections are non-linear); numpy eigh / pinv are the trusted base of the reference",
+  technique="bounded-exhaustive enumeration of block tuples on the real projections, with optimality certificates complete over competitors"),
 }
